@@ -87,7 +87,7 @@ fn scenario(r: &mut Rng) -> Scn {
         rewards0: r.pick(&[0u128, 0, 777]),
         oracle: r.next() % 2 == 0,
         treasury: r.next() % 2 == 0,
-        fee_rate: r.pick(&[0u128, 1, 10_000, 33_333, 100_000, 150_000]),
+        fee_rate: r.pick(&[0u128, 1, 10_000, 33_333, 100_000, 150_000, u128::MAX, 1u128 << 100]),
         tn,
         tl,
         fees: r.pick(&[0u128, 100, 12_345]),
@@ -934,6 +934,9 @@ const TAGS: &[(&str, &str)] = &[
     ("instantiate configured the LST denom", "C19,C14"),
     ("instantiate with a well-formed", "C14"),
     ("ResumeContract refused for the admin", "C08,C10,C12"),
+    ("type URL", "C20"),
+    ("Any ", "C20"),
+    ("wire bytes", "C20"),
     ("page", "C17"),
     ("paging", "C17"),
     ("Batches", "C17"),
@@ -1318,7 +1321,7 @@ fn fam_migrate(r: &mut Rng) -> Result<(), String> {
                 oldw.push((9000 + i, w));
             }
             // gate: wrong source version / other contract / not newer
-            for (nm, ver, why) in [(name, "0.4.20", "from version 0.4.20 through the 1.0.0->1.1.0 path"), ("other-contract", "1.0.0", "for a different contract name"), (name, "1.1.0", "to the same version"), (name, "2.0.0", "from a newer version")] {
+            for (nm, ver, why) in [(name, "0.4.20", "from version 0.4.20 through the 1.0.0->1.1.0 path"), (name, "1.0.1", "from version 1.0.1 through the 1.0.0->1.1.0 path (the source version must match exactly)"), (name, "1.0.7", "from version 1.0.7 through the 1.0.0->1.1.0 path (the source version must match exactly)"), ("other-contract", "1.0.0", "for a different contract name"), (name, "1.1.0", "to the same version"), (name, "2.0.0", "from a newer version")] {
                 let mut d2 = restore(&dump(&deps.storage));
                 cw2::set_contract_version(&mut d2.storage, nm, ver).unwrap();
                 let before = dump(&d2.storage);
@@ -1363,8 +1366,10 @@ fn fam_migrate(r: &mut Rng) -> Result<(), String> {
             let keep = others(&deps);
             let msg = MigrateMsg::V0_4_20ToV1_0_0 { native_account_address_prefix: "celestia".into(), native_validator_address_prefix: "celestiavaloper".into(), native_token_denom: "utia".into(), protocol_account_address_prefix: "osmo".into() };
             let mut d2 = restore(&dump(&deps.storage));
-            cw2::set_contract_version(&mut d2.storage, name, "0.4.18").unwrap();
-            if migrate(d2.as_mut(), mock_env(), msg.clone()).is_ok() { return Err("migration accepted from version 0.4.18 through the 0.4.20->1.0.0 path".into()); }
+            for v in ["0.4.18", "0.4.21", "0.4.25"] {
+                cw2::set_contract_version(&mut d2.storage, name, v).unwrap();
+                if migrate(d2.as_mut(), mock_env(), msg.clone()).is_ok() { return Err(format!("migration accepted from version {v} through the 0.4.20->1.0.0 path (the source version must match exactly)")); }
+            }
             migrate(deps.as_mut(), mock_env(), msg).map_err(|e| format!("migration 0.4.20->1.0.0 refused: {e}"))?;
             let c = CONFIG.load(&deps.storage).map_err(|e| format!("migration left the configuration unreadable: {e}"))?;
             let ok = c.native_chain_config.staker_address == old.multisig_address_config.staker_address
@@ -1391,6 +1396,11 @@ fn fam_migrate(r: &mut Rng) -> Result<(), String> {
             };
             v0_4_18::CONFIG.save(&mut deps.storage, &old).unwrap();
             let send = r.next() % 2 == 0;
+            for v in ["0.4.19", "0.4.20", "0.4.17"] {
+                let mut d2 = restore(&dump(&deps.storage));
+                cw2::set_contract_version(&mut d2.storage, name, v).unwrap();
+                if migrate(d2.as_mut(), mock_env(), MigrateMsg::V0_4_18ToV0_4_20 { send_fees_to_treasury: send }).is_ok() { return Err(format!("migration accepted from version {v} through the 0.4.18->0.4.20 path (the source version must match exactly)")); }
+            }
             migrate(deps.as_mut(), mock_env(), MigrateMsg::V0_4_18ToV0_4_20 { send_fees_to_treasury: send }).map_err(|e| format!("migration 0.4.18->0.4.20 refused: {e}"))?;
             let c = v0_4_20::CONFIG.load(&deps.storage).map_err(|e| format!("migration left the configuration unreadable: {e}"))?;
             let want = v0_4_20::Config { native_token_denom: old.native_token_denom.clone(), liquid_stake_token_denom: old.liquid_stake_token_denom.clone(), treasury_address: old.treasury_address.clone(), monitors: old.monitors.clone(),
@@ -1500,6 +1510,62 @@ fn fam_instantiate(r: &mut Rng) -> Result<(), String> {
     Ok(())
 }
 
+/// type URLs of the bindings, Any packing, and byte identity with the independently generated osmosis-std types (C20)
+fn fam_proto(r: &mut Rng) -> Result<(), String> {
+    use initia_proto::traits::{MessageExt, TypeUrl};
+    use initia_proto::{cosmos, ibc, initia};
+    macro_rules! url { ($t:ty, $u:expr) => { if <$t as TypeUrl>::TYPE_URL != $u { return Err(format!("type URL registered for {} is {:?}, the fully-qualified protobuf name gives {:?}", stringify!($t), <$t as TypeUrl>::TYPE_URL, $u)); } }; }
+    url!(cosmos::bank::v1beta1::MsgSend, "/cosmos.bank.v1beta1.MsgSend");
+    url!(cosmos::bank::v1beta1::MsgMultiSend, "/cosmos.bank.v1beta1.MsgMultiSend");
+    url!(cosmos::distribution::v1beta1::MsgSetWithdrawAddress, "/cosmos.distribution.v1beta1.MsgSetWithdrawAddress");
+    url!(cosmos::distribution::v1beta1::MsgWithdrawDelegatorReward, "/cosmos.distribution.v1beta1.MsgWithdrawDelegatorReward");
+    url!(cosmos::distribution::v1beta1::MsgWithdrawValidatorCommission, "/cosmos.distribution.v1beta1.MsgWithdrawValidatorCommission");
+    url!(cosmos::distribution::v1beta1::MsgFundCommunityPool, "/cosmos.distribution.v1beta1.MsgFundCommunityPool");
+    url!(cosmos::feegrant::v1beta1::MsgGrantAllowance, "/cosmos.feegrant.v1beta1.MsgGrantAllowance");
+    url!(cosmos::feegrant::v1beta1::MsgRevokeAllowance, "/cosmos.feegrant.v1beta1.MsgRevokeAllowance");
+    url!(cosmos::feegrant::v1beta1::BasicAllowance, "/cosmos.feegrant.v1beta1.BasicAllowance");
+    url!(cosmos::feegrant::v1beta1::PeriodicAllowance, "/cosmos.feegrant.v1beta1.PeriodicAllowance");
+    url!(cosmos::feegrant::v1beta1::AllowedMsgAllowance, "/cosmos.feegrant.v1beta1.AllowedMsgAllowance");
+    url!(cosmos::staking::v1beta1::MsgDelegate, "/cosmos.staking.v1beta1.MsgDelegate");
+    url!(cosmos::staking::v1beta1::MsgUndelegate, "/cosmos.staking.v1beta1.MsgUndelegate");
+    url!(cosmos::staking::v1beta1::MsgBeginRedelegate, "/cosmos.staking.v1beta1.MsgBeginRedelegate");
+    url!(cosmos::base::abci::v1beta1::MsgData, "/cosmos.base.abci.v1beta1.MsgData");
+    url!(cosmos::base::abci::v1beta1::TxMsgData, "/cosmos.base.abci.v1beta1.TxMsgData");
+    url!(cosmos::auth::v1beta1::BaseAccount, "/cosmos.auth.v1beta1.BaseAccount");
+    url!(cosmos::auth::v1beta1::ModuleAccount, "/cosmos.auth.v1beta1.ModuleAccount");
+    url!(ibc::applications::transfer::v1::MsgTransfer, "/ibc.applications.transfer.v1.MsgTransfer");
+    url!(initia::mstaking::v1::MsgCreateValidator, "/initia.mstaking.v1.MsgCreateValidator");
+    url!(initia::mstaking::v1::MsgEditValidator, "/initia.mstaking.v1.MsgEditValidator");
+    url!(initia::mstaking::v1::MsgDelegate, "/initia.mstaking.v1.MsgDelegate");
+    url!(initia::mstaking::v1::MsgBeginRedelegate, "/initia.mstaking.v1.MsgBeginRedelegate");
+    url!(initia::mstaking::v1::MsgUndelegate, "/initia.mstaking.v1.MsgUndelegate");
+    url!(initia::r#move::v1::MsgPublish, "/initia.move.v1.MsgPublish");
+    url!(initia::r#move::v1::MsgExecute, "/initia.move.v1.MsgExecute");
+    url!(initia::r#move::v1::MsgScript, "/initia.move.v1.MsgScript");
+    // Any: round trip, and a mismatched type URL is rejected
+    let amt = r.amount().to_string();
+    let m = cosmos::bank::v1beta1::MsgSend { from_address: b32("init", 1), to_address: b32("init", 2),
+        amount: vec![cosmos::base::v1beta1::Coin { denom: "uinit".into(), amount: amt.clone() }] };
+    let any = m.to_any().map_err(|e| format!("Any packing of MsgSend failed: {e}"))?;
+    if any.type_url != "/cosmos.bank.v1beta1.MsgSend" { return Err(format!("Any packing used type URL {:?}", any.type_url)); }
+    let back = cosmos::bank::v1beta1::MsgSend::from_any(&any).map_err(|e| format!("Any unpacking of a packed MsgSend failed: {e}"))?;
+    if back != m { return Err("Any packing and unpacking of MsgSend is not the identity".into()); }
+    if cosmos::bank::v1beta1::MsgMultiSend::from_any(&any).is_ok() { return Err("Any unpacking accepted a mismatched type URL (MsgSend unpacked as MsgMultiSend)".into()); }
+    if cosmos::staking::v1beta1::MsgDelegate::from_any(&any).is_ok() { return Err("Any unpacking accepted a mismatched type URL (MsgSend unpacked as MsgDelegate)".into()); }
+    // byte identity with the independently generated bindings for shared messages
+    let o = osmosis_std::types::cosmos::bank::v1beta1::MsgSend { from_address: m.from_address.clone(), to_address: m.to_address.clone(),
+        amount: vec![osmosis_std::types::cosmos::base::v1beta1::Coin { denom: "uinit".into(), amount: amt.clone() }] };
+    if m.encode_to_vec() != o.encode_to_vec() { return Err("wire bytes of cosmos.bank.v1beta1.MsgSend differ from the independently generated binding".into()); }
+    let (gw, gu, h) = ((r.next() % 1_000_000) as i64 + 1, (r.next() % 1_000_000) as i64 + 2_000_000, (r.next() % 100_000) as i64);
+    let t = cosmos::base::abci::v1beta1::TxResponse { height: h, txhash: "AB".into(), gas_wanted: gw, gas_used: gu, ..Default::default() };
+    let ot = osmosis_std::types::cosmos::base::abci::v1beta1::TxResponse { height: h, txhash: "AB".into(), gas_wanted: gw, gas_used: gu, ..Default::default() };
+    if t.encode_to_vec() != ot.encode_to_vec() { return Err("wire bytes of cosmos.base.abci.v1beta1.TxResponse differ from the independently generated binding".into()); }
+    let d = cosmos::staking::v1beta1::MsgDelegate { delegator_address: b32("init", 3), validator_address: b32("initvaloper", 4), amount: Some(cosmos::base::v1beta1::Coin { denom: "uinit".into(), amount: amt.clone() }) };
+    let od = osmosis_std::types::cosmos::staking::v1beta1::MsgDelegate { delegator_address: d.delegator_address.clone(), validator_address: d.validator_address.clone(), amount: Some(osmosis_std::types::cosmos::base::v1beta1::Coin { denom: "uinit".into(), amount: amt }) };
+    if d.encode_to_vec() != od.encode_to_vec() { return Err("wire bytes of cosmos.staking.v1beta1.MsgDelegate differ from the independently generated binding".into()); }
+    Ok(())
+}
+
 fn run_family(f: &str, r: &mut Rng) -> Result<(), String> {
     match f {
         "stake" => fam_stake(r),
@@ -1513,6 +1579,7 @@ fn run_family(f: &str, r: &mut Rng) -> Result<(), String> {
         "halt" => fam_halt(r),
         "ibc" => fam_ibc(r),
         "funds" => fam_funds(r),
+        "proto" => fam_proto(r),
         "instantiate" => fam_instantiate(r),
         "migrate" => fam_migrate(r),
         "queries" => fam_queries(r),
@@ -1523,7 +1590,7 @@ fn run_family(f: &str, r: &mut Rng) -> Result<(), String> {
     }
 }
 
-const FAMILIES: [&str; 17] = ["queries", "ibc", "migrate", "funds", "instantiate", "stake", "rewards", "batch", "auth", "ownership", "fee_withdraw", "validation", "recover", "treasury", "treasury_ownership", "halt", "config"];
+const FAMILIES: [&str; 18] = ["queries", "ibc", "migrate", "funds", "instantiate", "proto", "stake", "rewards", "batch", "auth", "ownership", "fee_withdraw", "validation", "recover", "treasury", "treasury_ownership", "halt", "config"];
 
 thread_local! { static PANIC_AT: std::cell::RefCell<String> = std::cell::RefCell::new(String::new()); }
 
